@@ -67,7 +67,7 @@ def check_fit_2d(rec, case, models, fluxes, k, source, lo, hi, info, what='C01')
     return ok
 
 
-def check_fit_3d(rec, case, models, fluxes, logd, k, source, lo, hi, info):
+def check_fit_3d(rec, case, models, fluxes, logd, k, source, lo, hi, info, ftol=1e-9):
     valid, flux, err = source.valid, source.flux, source.error
     w, lf, le = transform(valid, flux, err)
     logm = np.log10(fluxes)
@@ -102,7 +102,7 @@ def check_fit_3d(rec, case, models, fluxes, logd, k, source, lo, hi, info):
                              'row %d: chi2 %.9g is not the chi2 at the reported distance (%.9g)' % (r, ch[r], vals[b][0]), case)
         if info.model_fluxes is not None:
             pred = logm[i, b] + av * k
-            ok &= rec.expect(close(info.model_fluxes[r], pred, rtol=1e-9, atol=1e-9), 'predicted_fluxes', 'row %d: stored predicted fluxes wrong' % r, case)
+            ok &= rec.expect(close(info.model_fluxes[r], pred, rtol=ftol, atol=ftol), 'predicted_fluxes', 'row %d: stored predicted fluxes wrong' % r, case)
         if not ok:
             return False
     return ok
